@@ -83,3 +83,6 @@ Qed.
 Example ex_legal_images :
   length ex_cs = length ex_ms /\ (forall k, k <= length ex_ms -> images_at 5 ex_ms ex_cs k).
 Proof. exact (canonical_legal_images_partial 5 ltac:(lia) ex_ms ex_cs ex_input ex_trace_ok ex_canonical). Qed.
+
+Example ex_hypotheses_hold : Forall canon_input ex_ms /\ trace_ok 5 ex_ms /\ canonical gen_basis 5 ex_ms = Ok ex_cs.
+Proof. exact (conj ex_input (conj ex_trace_ok ex_canonical)). Qed.
